@@ -382,8 +382,11 @@ int process_start(pid_t *process,
       // child process when we're inheriting the parent standard streams. If we
       // don't call `exec`, the caller is responsible for closing the redirect
       // and exit handles.
-      if (redirect[i] != i) {
-        // Make sure the pipe is closed when we call exec.
+      if (redirect[i] > STDERR_FILENO) {
+        // Make sure the pipe is closed when we call exec. Descriptors 0-2 are
+        // (or are about to become) the child's own standard streams and must
+        // stay open: with stdout inherited from the parent and stderr
+        // redirected to stdout, `redirect[2]` is descriptor 1.
         r = handle_cloexec(redirect[i], true);
         if (r < 0) {
           goto child;
